@@ -675,6 +675,8 @@ def run_case(case):
     import loop
     if case.get('words'):
         return run_word_case(case)
+    if case.get('multi'):
+        return run_multi_case(case)
     sid, ver, cfg = case['sid'], tuple(case['ver']), case.get('cfg', 'client-pinned')
     m = iana.meaning(sid)
     rec = recorder()
@@ -753,6 +755,77 @@ def run_case(case):
         if ver == (3, 4) and case.get('post', True) and m is not None:
             out['post'] = tls13_post(pair, m, data[:64] or b"x", out, skw, cs, ckw)
             out['hkdf'] = sorted(set(rec.hkdf))
+    except Exception as e:  # noqa
+        import traceback
+        out['error'] = '%s: %s' % (type(e).__name__, e)
+        out['tb'] = traceback.format_exc()[-1500:]
+    finally:
+        rnd.uninstall()
+    return out
+
+
+SIG_FIELDS = {'rsa': ('rsaSigHashes', 'rsaSchemes'), 'ecdsa': ('ecdsaSigHashes',), 'dsa': ('dsaSigHashes',)}
+KX_WORDS = {'rsa': ['rsa', 'dhe_rsa', 'ecdhe_rsa'], 'ecdsa': ['ecdhe_ecdsa'], 'dsa': ['dhe_dsa']}
+
+
+def run_multi_case(case):
+    """A server with SEVERAL key pairs: primary certificate of key type `primary`, a second pair of type `alt` in
+    settings.virtual_hosts.  The client lists the suites of both authentication kinds but makes the primary unusable
+    for the reason `skip`:
+      'sigalgs'   : it advertises no signature algorithm for the primary's key type (TLS 1.2)
+      'suites'    : it offers only suites authenticated by the alt's key type
+    deviate=True additionally makes the SERVER choose the suite as if for the primary while sending the alternative
+    pair (CipherSuite.filter_for_certificate is handed the primary chain during the server's selection): the client
+    must refuse a certificate whose key type does not fit the suite.  Nothing is cut from the offer; whatever is
+    negotiated is observed like any other connection (certificate key type and signature algorithm on the wire)."""
+    import loop
+    from tlslite.handshakesettings import VirtualHost, Keypair
+    primary, alt, skip, ver = case['multi'], case['alt_cred'], case.get('skip', 'sigalgs'), tuple(case['ver'])
+    rec = recorder()
+    rec.reset()
+    rnd = loop.DetRandom(case.get('seed', 0)).install()
+    out = {'sid': -1, 'ver': -1, 'ok': False, 'multi': [primary, alt, skip, bool(case.get('deviate'))],
+           'cfg': 'multi:%s+%s/skip=%s%s' % (primary, alt, skip, '/server-deviates' if case.get('deviate') else '')}
+    try:
+        pair = loop.Pair()
+        cs, ss = permissive(ver, ver), permissive((3, 0), (3, 4))
+        cs.keyExchangeNames = (KX_WORDS[primary] if skip == 'sigalgs' else []) + KX_WORDS[alt]
+        if skip == 'sigalgs':
+            for f in SIG_FIELDS[primary]:
+                setattr(cs, f, [])
+            cs.more_sig_schemes = []
+        pch, pkey = loop.creds(primary)
+        ach, akey = loop.creds(alt)
+        vh = VirtualHost()
+        vh.keys = [Keypair(akey, list(ach.x509List))]
+        ss.virtual_hosts = [vh]
+        skw = {'settings': ss, 'certChain': pch, 'privateKey': pkey}
+        if case.get('deviate'):
+            import tlslite.constants as tconst
+            orig_sel = pair.server._server_select_certificate
+            orig_ffc = tconst.CipherSuite.__dict__['filter_for_certificate']
+
+            def sel(*a, **kw):
+                f = orig_ffc.__func__ if isinstance(orig_ffc, staticmethod) else orig_ffc
+                tconst.CipherSuite.filter_for_certificate = staticmethod(lambda suites, cert: f(suites, pch))
+                try:
+                    return orig_sel(*a, **kw)
+                finally:
+                    tconst.CipherSuite.filter_for_certificate = orig_ffc
+            pair.server._server_select_certificate = sel
+        c, s = pair.handshake(client_kw={'settings': cs}, server_kw=skw, client_kind='cert')
+        out['outcome'] = [list(map(str, loop.classify(c))), list(map(str, loop.classify(s)))]
+        try:
+            out['wire'] = wire_view(records(pair.csock.sent_log), records(pair.ssock.sent_log))
+        except Exception as e:  # noqa
+            out['wire'] = None
+            out['wire_error'] = repr(e)
+        if out['wire'] and out['wire']['sh_suite'] >= 0:
+            out['sid'], out['ver'] = out['wire']['sh_suite'], out['wire']['sh_ver']
+        if c[0] != 'ok' or s[0] != 'ok' or not out['wire']:
+            return out
+        out['ok'] = True
+        observe(pair, rec, out, out['sid'], (3, out['ver']), N_APP)
     except Exception as e:  # noqa
         import traceback
         out['error'] = '%s: %s' % (type(e).__name__, e)
